@@ -373,7 +373,7 @@ func c10Requests(r *hx.Rng, code uint64, keyType string, nonce bool, pad int) []
 }
 
 func checkC10(c *hx.Ctx) {
-	c.Rule("(A) valid requests of the four types for every key type / hash algorithm must be accepted; (B) every member of the request, of suffix data / delta, of the protected header and of the signed payload (re-signed) is removed, nulled, emptied, type-confused or swapped with another request's value: whenever Parse (and DocumentHandler.ProcessOperation for creates) accepts, an independent predicate over the raw JSON (sizes, multihash well-formedness/algorithm/length, alg/curve/nonce/patch allow-lists, reveal = hash of signing key, commitment rules) must hold; (C) each limit (request size via JSON whitespace, canonical delta size via an adjustable string, hash length 46/88 vs MaxOperationHashLength, nonce size, each alg / curve / patch action removed from its allow-list) is checked exactly at and one past its boundary, each under >= 7 configurations that move one OTHER parameter: accepted at, rejected past, decision independent of the other parameter; (E) a limit of zero admits nothing; (F) a DocumentHandler serving two protocol versions judges a create submitted for the later, stricter version by that version's rules also after having served the earlier version; (D) arbitrary bytes and structurally damaged requests into Parse, ParseOperation (batch on/off), GetRevealValue, GetCommitment, ParseDID must return, never panic; crash-isolated workers; non-trivial = mutated or boundary input; distinct = distinct (input, configuration, entry point)")
+	c.Rule("(A) valid requests of the four types for every key type / hash algorithm must be accepted; (B) every member of the request, of suffix data / delta, of the protected header and of the signed payload (re-signed) is removed, nulled, emptied, type-confused or swapped with another request's value: whenever Parse (and DocumentHandler.ProcessOperation for creates) accepts, an independent predicate over the raw JSON (sizes, multihash well-formedness/algorithm/length, alg/curve/nonce/patch allow-lists, reveal = hash of signing key, commitment rules) must hold; (C) each limit (request size via JSON whitespace, canonical delta size via an adjustable string, hash length 46/88 vs MaxOperationHashLength, nonce size, each alg / curve / patch action removed from its allow-list) is checked exactly at and one past its boundary, each under >= 7 configurations that move one OTHER parameter: accepted at, rejected past, decision independent of the other parameter; (E) a limit of zero admits nothing; (F) a DocumentHandler serving two protocol versions judges a create submitted for the later, stricter version by that version's rules also after having served the earlier version; (D) correctly signed requests whose JSON patch operations have null / mistyped members at every list position, arbitrary bytes and structurally damaged requests into Parse, ParseOperation (batch on/off), GetRevealValue, GetCommitment, ParseDID must return, never panic; crash-isolated workers; non-trivial = mutated or boundary input; distinct = distinct (input, configuration, entry point)")
 	pool := hx.NewPool(c, "parse", 16, 4*1024*1024, 30*time.Second)
 	defer pool.Close()
 	call := func(entry string, p protocol.Protocol, in []byte) (string, string, bool) {
@@ -969,6 +969,47 @@ func checkC10(c *hx.Ctx) {
 	})
 	c.Sample(3, map[string]interface{}{"boundary_jobs": len(bjobs), "configurations_per_boundary": len(others), "example": bjobs[0].name})
 
+	// ---------- (D0) directed: correctly signed requests whose delta carries JSON patch operations with null / non-string
+	// members at every position of the list (the validators look at members before they know their type)
+	{
+		dr := c.Rng("null-members")
+		du := NewUniverse(dr.Split("u"), ref.SHA256, base, []string{"P-256", "Ed25519"})
+		valid := map[string]interface{}{"op": "add", "path": "/m", "value": "v"}
+		var lists [][]interface{}
+		for _, bad := range []map[string]interface{}{
+			{"op": "add", "path": nil, "value": 1.0}, {"op": "copy", "from": nil, "path": "/x"}, {"op": "move", "from": nil, "path": "/x"}, {"op": "remove", "path": nil},
+			{"op": nil, "path": "/x"}, {"op": "add", "path": 5.0, "value": 1.0}, {"op": "copy", "from": []interface{}{}, "path": "/x"}, {"op": "test", "path": nil, "value": nil},
+			{"op": "replace", "path": nil}, {"path": nil}, {"op": "copy", "from": nil, "path": nil}} {
+			lists = append(lists, []interface{}{bad}, []interface{}{valid, bad}, []interface{}{valid, valid, bad}, []interface{}{bad, valid})
+		}
+		lists = append(lists, []interface{}{nil}, []interface{}{valid, nil}, []interface{}{"x"}, []interface{}{[]interface{}{}})
+		for li, l := range lists {
+			patches := []interface{}{map[string]interface{}{"action": "ietf-json-patch", "patches": l}}
+			if li%3 == 1 {
+				patches = append([]interface{}{patchAddServices(svcEntry("s", "t", "https://s.example"))}, patches...)
+			}
+			cs := &ref.CreateSpec{Code: ref.SHA256, RecoveryCommitment: du.R[0].Commitment(ref.SHA256), Delta: ref.Delta(du.U[0].Commitment(ref.SHA256), patches)}
+			reqs := [][]byte{ref.MustJCS(cs.Request()),
+				du.MkSigned("u", "update", du.U[0], "", du.U[1].Commitment(ref.SHA256), patches, SignedOpts{}).Request,
+				du.MkSigned("r", "recover", du.R[0], du.R[1].Commitment(ref.SHA256), du.U[1].Commitment(ref.SHA256), patches, SignedOpts{}).Request}
+			for _, in := range reqs {
+				for _, entry := range []string{"Parse", "ParseOperation", "ParseOperationBatch", "GetRevealValue", "GetCommitment"} {
+					c.Eval()
+					st, _, ok := call(entry, base, in)
+					if !ok {
+						return
+					}
+					c.Count("json_patch_members_null_" + st)
+					if st == "OK" && (entry == "Parse" || entry == "ParseOperation") {
+						if why := predicate(base, in); why != "" {
+							c.Violation("C10 "+entry+" accepted a request whose JSON patch has null / mistyped members and that breaks a protocol rule: "+why, map[string]interface{}{"request": string(in), "broken_rule": why})
+							return
+						}
+					}
+				}
+			}
+		}
+	}
 	// ---------- (D) garbage
 	nG := c.N(150000, 2000000)
 	gs := c.Rng("garbage")
@@ -1052,6 +1093,7 @@ func checkC10(c *hx.Ctx) {
 	for _, e := range entries {
 		c.Floor("garbage_"+e+"_ERR", 500)
 	}
+	c.Floor("json_patch_members_null_ERR", 200)
 }
 
 func without(xs []string, x string) []string {
